@@ -526,6 +526,88 @@ def first_open_race(ctx, idm, cov, rounds, n_proc):
     cov.bump("first-open-wall-ms", int(1000 * (time.time() - t0)))
 
 
+def _hl_first_open_worker(path, barrier, k, q, img):
+    try:
+        import tupimage
+        barrier.wait(60)
+        t = tupimage.TupimageTerminal(out_command=common.RecStream(), out_display=common.RecStream(), in_response=open("/dev/tty", "rb", buffering=0), id_database=path,
+                                      config="DEFAULT", id_space="8bit", redetect_terminal=False, terminal_id=f"P{k}", session_id="S", num_tmux_layers=0)
+        inst = t.assign_id(img, cols=1, rows=1)
+        t.id_manager.close()
+        q.put((k, "ok", inst.id))
+    except BaseException as e:  # noqa: BLE001
+        q.put((k, "err", f"{type(e).__name__}: {e}"))
+
+
+def highlevel_first_open_race(ctx, cov, rounds, n_proc):
+    """The same race through the constructor a user calls: n processes build a TupimageTerminal on a session database that
+    does not exist yet and request an id each.  Afterwards every id that was handed out is bound in THE database (one
+    file: no process may have worked on a file another one removed or replaced)."""
+    work = ctx.work
+
+    def body():
+        common.scrub_process_env()
+        os.environ["HOME"] = work
+        os.environ["XDG_STATE_HOME"] = os.path.join(work, "state")
+        os.environ["XDG_CONFIG_HOME"] = os.path.join(work, "config")
+        import sqlite3
+        common.import_impl()
+        from PIL import Image
+        imgs = []
+        for k in range(n_proc):
+            p = os.path.join(work, f"c03-hl-{k}.png")
+            Image.new("RGB", (2 + k, 2), (k * 20, 1, 1)).save(p)
+            imgs.append(p)
+        mpctx = mp.get_context("fork")
+        out = []
+        for rd in range(rounds):
+            d = os.path.join(work, f"hl-open-{rd}")
+            os.makedirs(d, exist_ok=True)
+            path = os.path.join(d, "session.db")
+            barrier = mpctx.Barrier(n_proc)
+            q = mpctx.Queue()
+            ps = [mpctx.Process(target=_hl_first_open_worker, args=(path, barrier, k, q, imgs[k])) for k in range(n_proc)]
+            for p in ps:
+                p.start()
+            res = []
+            try:
+                for _ in ps:
+                    res.append(list(q.get(timeout=120)))
+            except Exception:  # noqa: BLE001
+                res.append([-1, "err", "timeout"])
+            for p in ps:
+                p.join(5)
+                if p.is_alive():
+                    p.kill()
+            conn = sqlite3.connect(path)
+            try:
+                bound = sorted(r[0] for r in conn.execute("SELECT id FROM ids_8bit").fetchall())
+            except sqlite3.Error as e:
+                bound = "ERR " + str(e)
+            conn.close()
+            out.append({"round": rd, "results": res, "bound": bound})
+            shutil.rmtree(d, ignore_errors=True)
+            if any(r[1] != "ok" for r in res) or bound != sorted(r[2] for r in res):
+                break
+        return out
+
+    r = common.in_pty(body, timeout=900)
+    if "ok" not in r:
+        ctx.corr_breaks.append({"what": "high-level first-open race failed in the pty sandbox", "error": {k: v for k, v in r.items() if k != "tty"}})
+        return
+    for rec in r["ok"]:
+        cov.add({"highlevel-first-open": rec["round"], "seed": ctx.seed}, klass=f"first-open/highlevel/{n_proc}proc")
+        case = {"kind": "first-open-highlevel", "n_proc": n_proc, "rounds": rounds}
+        errs = [x for x in rec["results"] if x[1] != "ok"]
+        if errs:
+            ctx.violations.append({"signature": {"class": "locking-or-constraint-error", "scenario": "first-open/highlevel"},
+                                   "what": f"{n_proc} processes building a TupimageTerminal on a fresh session database together: {errs[0][2][:200]}", "case": case})
+        elif rec["bound"] != sorted(x[2] for x in rec["results"]):
+            ctx.violations.append({"signature": {"class": "lost-assignment", "scenario": "first-open/highlevel"},
+                                   "what": f"{n_proc} processes building a TupimageTerminal on a fresh session database together were handed the ids {sorted(x[2] for x in rec['results'])}, "
+                                           f"the database afterwards binds {rec['bound']}: no one-at-a-time order of the requests gives that", "case": case})
+
+
 def stress(ctx, idm, cov, rounds, n_proc, n_ops):
     mpctx = mp.get_context("fork")
     for rd in range(rounds):
@@ -636,6 +718,7 @@ def run(ctx, model):
     cov.bump("model-events", sum(len(o["events"]) for _, o in pending))
     stress(ctx, idm, cov, rounds=ctx.pick(3, 12), n_proc=ctx.pick(4, 8), n_ops=ctx.pick(40, 200))
     first_open_race(ctx, idm, cov, rounds=ctx.pick(40, 400), n_proc=8)
+    highlevel_first_open_race(ctx, cov, rounds=ctx.pick(25, 250), n_proc=8)
     return cov
 
 
@@ -647,6 +730,10 @@ def replay(ctx, model, rec):
         before = len(ctx.violations)
         first_open_race(ctx, idm, common.Coverage("replay"), case.get("rounds", 20), case.get("n_proc", 8))
         return {"violates": len(ctx.violations) > before, "note": "a race between real processes: not schedule-deterministic; 20 rounds of 8 simultaneous first opens"}
+    if case.get("kind") == "first-open-highlevel":
+        before = len(ctx.violations)
+        highlevel_first_open_race(ctx, common.Coverage("replay"), case.get("rounds", 25), case.get("n_proc", 8))
+        return {"violates": len(ctx.violations) > before, "note": "a race between real processes: not schedule-deterministic"}
     if case.get("kind") == "stress":
         class C:  # minimal ctx for a single round with the recorded seeds
             pass
